@@ -560,6 +560,21 @@ def expected_exception(call):
     return None
 
 
+def not_executable(call):
+    """routines that CANNOT run to completion on this backend whatever the arguments (decided on the environment only): reason text,
+    else None.  Such calls are still made (their draw-site prefix is executed, the state-unchanged / same-draws observations are made
+    and the exception is compared with the prediction) but they are NOT counted as executed: not in `evaluations`, not in
+    `routines_covered`, not in the case sets; the evidence lists them under `not_executable_on_this_backend`."""
+    r = call["routine"]
+    if r in ("svrg_eigh_max", "svrg_solveh") and L.jax_missing:
+        return ("needs the package `jax` (`import jax` inside the routine, then jax.random / jax.lax loops); jax is not installed and there is "
+                "no NumPy path: ModuleNotFoundError after the initial xnp.randn draw; only the prefix up to that draw site runs")
+    if r == "solve_svrg_rff" and (L.jax_missing or not hasattr(L.cola.linalg, "eigs")):
+        return ("needs the package `jax` (an inert stand-in module lets `import jax` pass) and calls `cola.linalg.eigs`, which does not exist in "
+                "this version of cola: AttributeError after the initial xnp.randn draw on every backend; only the prefix up to that draw site runs")
+    return None
+
+
 def exception_verdict(call, dg, exc):
     """None when the outcome (return / exception class, message, position relative to the draws) is the predicted one,
     else a text saying what was not predicted"""
@@ -725,6 +740,7 @@ class Stats:
         self.exc = {}
         self.exc_unpredicted = []
         self.exc_unpredicted_n = 0
+        self.not_exec = {}
         self.samples = []
         self.interleavings = 0
         self.user_ops = 0
@@ -744,6 +760,18 @@ def report(ctx, S, payload):
         ctx.violations.append("suppressed")
 
 
+def outcome_findings(script, digs):
+    """replay side of the `unpredicted-outcome` VIOLATION: every outcome of every call of the script against expected_exception()"""
+    out = []
+    for i, call in enumerate(script["calls"]):
+        for (dg_, exc_) in digs.get(i, []):
+            verdict = exception_verdict(call, dg_, exc_)
+            if verdict is not None:
+                out.append({"kind": "unpredicted-outcome", "call": call, "exception": exc_, "detail": verdict})
+                break
+    return out
+
+
 def stream_scripts(ctx, S, rng, nscripts, trace):
     for _ in range(nscripts):
         script = gen_script(rng, ncalls=rng.randint(2, 4))
@@ -752,25 +780,35 @@ def stream_scripts(ctx, S, rng, nscripts, trace):
         S.interleavings += 1
         S.user_ops += sum(1 for s in script["steps"] if "user" in s)
         for i, call in enumerate(script["calls"]):
-            S.evals += 2
-            cid = common.canon(call)
-            S.cases.add(cid)
             r = call["routine"]
-            S.by_routine[r] = S.by_routine.get(r, 0) + 2
-            S.op_kinds[op_skel(call["op"]).split("(")[0].rstrip("0123456789")] = S.op_kinds.get(op_skel(call["op"]).split("(")[0].rstrip("0123456789"), 0) + 1
-            # exceptions are observations: every outcome (of both occurrences) is compared with the exact prediction
+            nx = not_executable(call)
+            outcomes = digs.get(i, [])
+            verdicts = [exception_verdict(call, dg_, exc_) for (dg_, exc_) in outcomes]
+            # a routine that cannot run on this backend and ended exactly the predicted way is NOT counted as executed
+            counted = not (nx is not None and all(v is None for v in verdicts) and all(e is not None for (_, e) in outcomes))
+            if counted:
+                S.evals += 2
+                S.cases.add(common.canon(call))
+                S.by_routine[r] = S.by_routine.get(r, 0) + 2
+                S.op_kinds[op_skel(call["op"]).split("(")[0].rstrip("0123456789")] = S.op_kinds.get(op_skel(call["op"]).split("(")[0].rstrip("0123456789"), 0) + 1
+            else:
+                ent = S.not_exec.setdefault(r, {"reason": nx, "calls_made_not_counted": 0})
+                ent["calls_made_not_counted"] += len(outcomes)
+                drew[i] = 0
+            # exceptions are observations: every outcome (of both occurrences) is compared with the exact prediction; an outcome
+            # the prediction does not cover is a VIOLATION (replay = the script containing the call)
             unpredicted = False
-            for (dg_, exc_) in digs.get(i, []):
-                verdict = exception_verdict(call, dg_, exc_)
+            for (dg_, exc_), verdict in zip(outcomes, verdicts):
                 if exc_ is not None:
-                    ek = f"{r} {exc_.split(':')[0]} [{'predicted' if verdict is None else 'UNPREDICTED'}]"
+                    ek = f"{r} {exc_.split(':')[0]} [{'predicted' if verdict is None else 'UNPREDICTED'}{'' if counted else ', not executable on this backend'}]"
                     S.exc[ek] = S.exc.get(ek, 0) + 1
                 if verdict is not None:
-                    unpredicted = True
                     S.exc_unpredicted_n += 1
                     if len(S.exc_unpredicted) < 10:
                         S.exc_unpredicted.append({"routine": r, "op": op_skel(call["op"]), "params": call["params"], "what": verdict})
-                    print(f"NOTE C17: outcome not predicted by expected_exception(): {r} on {op_skel(call['op'])} {call['params']}: {verdict}", flush=True)
+                    if not unpredicted:      # one VIOLATION per call
+                        findings.append({"kind": "unpredicted-outcome", "call": call, "exception": exc_, "detail": verdict})
+                    unpredicted = True
             if unpredicted:
                 drew[i] = 0      # such a call is not counted as a non-trivial case
             if len(S.samples) < 6 and rng.random() < 0.05:
@@ -1124,12 +1162,17 @@ def stream_lean(ctx, S, rng, ncases, cov):
 # for both probe kinds the maximal form that covers the routine's data-dependent `err(state) > tol` stopping rule (Ville);
 # independence of blocks drawn under different keys (the theorems treat all iterations as ONE block of N columns); MT19937 after
 # seed(key) delivering i.i.d. N(0,1).  The stated ALPHA rests on them.  The thresholds are NOT widened to what is proved; instead the
-# proved level of every threshold actually used is computed and recorded (evidence streams.ztest: lean_certified_*, chebyshev_*,
-# hoeffding_*; ztest_chebyshev_false_alarm_max).  Rounding (float64 sums of <= 1e5 terms, rel. error < 1e-11) is covered by SLACK.
+# proved fixed-N single-key level of every threshold actually used is computed and recorded (evidence streams.ztest: lean_certified_*_stage1/2,
+# chebyshev_*, hoeffding_*; ztest_chebyshev_false_alarm_max).  Rounding (float64 sums of <= 1e5 terms, rel. error < 1e-11) is covered by SLACK.
 # Procedure: stage 1 tests every component against thr(X1); a component beyond it is re-tested K times with FRESH keys and
 # REP_FACTOR times the cap and is a VIOLATION iff it exceeds thr(X2) in ALL K.  Under the contracts
 #     P(any VIOLATION on an unbiased estimator) <= C * 2 exp(-X1) * (2 exp(-X2))^K <= ALPHA  (C components; K chosen accordingly);
-# from the proved inequalities alone: <= sum_components level1 * level2^K  (`lean_certified_stream_false_alarm`).
+# `stream_false_alarm_product_of_fixedN_levels` (formerly mislabelled `lean_certified_stream_false_alarm`) = sum_components level1 * level2^K
+# is NOT a consequence of the proved inequalities alone.  THEOREMS: each factor level1 / level2 is the proved fixed-N Chebyshev
+# (every law) or Hoeffding (Rademacher) bound for ONE key and a FIXED number N of columns.  ASSUMPTIONS needed to combine them:
+# (1) independence of the blocks drawn under DIFFERENT keys (stage 1 and the K replications) - that is what licenses the product
+# level1 * level2^K; (2) optional stopping - the routine stops at a data-dependent N <= Ncap, the theorems are applied at that stopped N
+# as if it were fixed (a maximal / Ville form would be needed).  Only the union bound over components needs no assumption.
 Z_X1 = 6.0
 Z_X2 = 8.0
 Z_REP_FACTOR = 4
@@ -1314,13 +1357,22 @@ def stream_ztest(ctx, S, cov, ncases):
         "chebyshev_false_alarm_stage1_min": (float(min(cheb1)) if cheb1 else 0.0),
         "chebyshev_false_alarm_stage2_observed_max": (float(max(cheb2)) if cheb2 else None),
         "chebyshev_false_alarm_stage2_bound": 1.0 / (2.0 * Z_X2),
-        "chebyshev_certified_stream_false_alarm": cheb_stream,
+        "chebyshev_stream_false_alarm_product_of_fixedN_levels": cheb_stream,
         "hoeffding_components_rademacher": len(hoef1),
         "hoeffding_false_alarm_stage1_max": (float(max(hoef1)) if hoef1 else 0.0),
         "lean_certified_false_alarm_stage1_max": (float(max(l1 for l1, _ in cert)) if cert else 0.0),
         "lean_certified_false_alarm_stage1_max_rademacher": (float(max(hoef1)) if hoef1 else 0.0),
         "lean_certified_false_alarm_stage2_observed_max": (float(max(cert2)) if cert2 else None),
-        "lean_certified_stream_false_alarm": cert_stream,
+        "stream_false_alarm_product_of_fixedN_levels": cert_stream,
+        "stream_false_alarm_product_is": "sum over components of level1 * level2^K.  THEOREMS (Lean): every single factor - level1 and each level2 is the fixed-N "
+                                         "Chebyshev bound N V / thr^2 (C17_tail_chebyshev_sum, every probe law) or the fixed-N Hoeffding bound 2 exp(-thr^2 / (2 N rho^2)) "
+                                         "(C17_tail_hoeffding_sign / _threshold, Rademacher probes), each for ONE key and a FIXED number N of independent columns; "
+                                         "the union bound over components.  ASSUMPTIONS (not theorems): (1) independence ACROSS keys - the blocks drawn for stage 1 "
+                                         "and for the K replications (fresh keys) are treated as independent, which is what turns the per-key levels into the product "
+                                         "level1 * level2^K; (2) optional stopping - the routine stops at a data-dependent number of columns N <= cap and the fixed-N "
+                                         "theorems are evaluated at that stopped N as if it had been fixed in advance (a maximal / Ville-type inequality is not proved).  "
+                                         "This number is therefore NOT certified by Lean; the per-factor keys lean_certified_false_alarm_stage1_max / _stage2_observed_max "
+                                         "are the proved fixed-N single-key levels (still subject to (2) when the run stopped before the cap)",
         "contract_not_proved": "the sub-gamma level 2 exp(-x) of the NORMAL-probe thresholds; for both probe kinds the maximal form of the bounds for the "
                                "data-dependent stopping rule (Ville), independence of blocks drawn under different keys, MT19937 + seed(key) delivering "
                                "i.i.d. N(0,1); `false_alarm_stated` and `false_alarm_bound_this_run` rest on these",
@@ -1353,7 +1405,8 @@ def replay(ctx):
     payload = json.load(open(ctx.replay))
     S = Stats()
     if "script" in payload:
-        findings, _ = check_script(payload["script"])
+        findings, digs = check_script(payload["script"])
+        findings += outcome_findings(payload["script"], digs)
         for f in findings:
             report(ctx, S, dict(f, script=payload["script"]))
         print(f"replayed script: {len(findings)} finding(s)")
@@ -1369,7 +1422,8 @@ def replay(ctx):
         call = payload["call"]
         script = {"calls": [call], "steps": [{"user": "seed", "arg": 1}, {"user": "randn", "arg": 3}, {"call": 0, "rep": 0},
                                             {"user": "randn", "arg": 2}, {"call": 0, "rep": 1}, {"user": "randn", "arg": 2}]}
-        findings, _ = check_script(script)
+        findings, digs = check_script(script)
+        findings += outcome_findings(script, digs)
         for f in findings:
             report(ctx, S, dict(f, script=script))
         print(f"replayed call: {len(findings)} finding(s)")
@@ -1480,8 +1534,8 @@ def run(ctx):
         "distinct_nontrivial": len(S.nontrivial),
         "rule": "a case is non-trivial when the call executed at least one random-draw site (counted by a transparent wrapper "
                 "around np_fns.randn; lobpcg: its local-generator site is unconditional) while the global state had been perturbed by "
-                "user draws and ended the way expected_exception(call) predicts (routines of cola/linalg/tbd that raise after their draw count: the exception "
-                "and the draw sequence are what is compared); "
+                "user draws and ended the way expected_exception(call) predicts; the three cola/linalg/tbd/svrg routines that cannot run on this backend "
+                "(not_executable_on_this_backend) are NOT counted, although their draw-site prefix is executed and compared; "
                 "Lean-correspondence cases additionally need k != 0 or more than one iteration; exhaustive cases must have consumed all 2^n blocks",
         "samples": S.samples,
         "routines_covered": S.by_routine,
@@ -1495,8 +1549,9 @@ def run(ctx):
                        "(NumpyNotImplementedError in cola) replaced by an entry-wise exact VJP for parameter-affine functions",
             "solve_svrg_rff": "inert stand-in module `jax` in sys.modules during the call so that the `import jax` preceding the draw succeeds; the call "
                               "then fails at cola.linalg.eigs (AttributeError) - the draw site is executed, the rest of the routine is not",
-            "svrg_eigh_max / svrg_solveh": "no shim: the draw precedes `import jax`; the call raises ModuleNotFoundError after the draw. For calls that "
-                                           "raise, determinism is judged on the sequence of draws (site, key, sha1 of the drawn block)",
+            "svrg_eigh_max / svrg_solveh": "no shim possible (the routines are written against jax.random / jax.lax): the draw precedes `import jax`; the call "
+                                           "raises ModuleNotFoundError after the draw; NOT counted as executed (see not_executable_on_this_backend). For calls "
+                                           "that raise, determinism is judged on the sequence of draws (site, key, sha1 of the drawn block)",
         },
         "dynamic_local_generator_sites": trace.local_sites,
         "exceptions_seen": S.exc,
@@ -1505,7 +1560,13 @@ def run(ctx):
                            "krylov_constraint_solve_upto_r: its own convergence assertion AFTER the draws; diag(Kronecker, k != 0) and "
                            "logdet(PSD(Kronecker with a Dense factor)): AssertionError BEFORE any draw); predicted exceptions are compared between the two "
                            "occurrences with their full message; state-unchanged is checked on every path",
+        "not_executable_on_this_backend": S.not_exec,
+        "not_executable_rule": "routines listed here cannot run to completion on this backend for ANY argument (not_executable(call), decided on the "
+                               "environment): they are not counted in `evaluations`, `distinct_cases`, `distinct_nontrivial`, `routines_covered`.  "
+                               "The calls are still made: the draw-site prefix runs (site coverage), state-unchanged / same-draws are checked, and "
+                               "the exception must be exactly the predicted one (else VIOLATION unpredicted-outcome)",
         "exceptions_unpredicted": S.exc_unpredicted_n,
+        "exceptions_unpredicted_are": "VIOLATIONs (kind unpredicted-outcome, replay = the script containing the call)",
         "exceptions_unpredicted_first": S.exc_unpredicted,
         "operator_kinds": S.op_kinds,
         "interleavings_tried": S.interleavings,
@@ -1545,8 +1606,9 @@ def run(ctx):
         "Hoeffding bound (fixed N); for normal probes only the Chebyshev level is proved and the sub-gamma level 2 exp(-x) is a CONTRACT; for both, the "
         "maximal form that covers the stopping rule (Ville) and hence the stated false alarm <= 1e-9 per run are a CONTRACT (textbook inequalities, "
         "not Lean theorems), and so is the independence of blocks drawn under different keys (several iterations = ONE block of iterations*bs "
-        "columns in the theorems).  The proved level of every threshold actually used is computed and recorded (streams.ztest.lean_certified_*, "
-        "chebyshev_*, hoeffding_*)",
+        "columns in the theorems).  The proved fixed-N single-key level of every threshold actually used is computed and recorded (streams.ztest.lean_certified_*, "
+        "chebyshev_*, hoeffding_*); their combination streams.ztest.stream_false_alarm_product_of_fixedN_levels additionally ASSUMES independence across keys and "
+        "applies the fixed-N theorems at the stopped N (optional stopping): it is not a theorem",
         "probe laws are PROVED instances of one structure (StdEntry, Lemmas/RngLaw.lean): i.i.d. standard normal entries = Mathlib's gaussianReal 0 1 "
         "under Measure.pi (C17_unbiased_gaussian; the former hypothesis GaussianSecondMoments is theorem C17_gaussian_second_moments, from "
         "integral_id_gaussianReal, variance_id_gaussianReal, memLp_id_gaussianReal, iIndepFun_pi), sign of a standard normal as coded incl. sign(0) = 0 "
